@@ -1,8 +1,23 @@
 //! vf-world: shared generators, server factory, canonical dumps, reference evaluators and
 //! drivers used by the per-property checks (src/bin/cXX.rs).
-pub mod srv;
 pub mod dump;
-pub mod pop;
 pub mod fil;
+pub mod hist;
+pub mod inv;
+pub mod ops;
+pub mod pop;
+pub mod repl;
+pub mod srv;
+
+// per-group helper modules (owned by the group that builds those properties)
+pub mod g_access;
+pub mod g_auth;
+pub mod g_fault;
+pub mod g_integrity;
+pub mod g_proto;
+pub mod g_replx;
+pub mod g_session;
+pub mod g_storage;
+pub mod g_unix;
 
 pub use vf_core;
